@@ -481,4 +481,156 @@ Section AllocInv.
       rewrite El, Er. apply perm_cnt. intro x. autorewrite with cnt. rewrite !cnt_pages_inode, cnt_cpages_app. lia.
   Qed.
 
+  (* ---------------------------------------------------------------- frames around a child *)
+  Lemma descend_frame : forall s (n1 : anode) j R, ais_leaf n1 = false -> j < length (achildren n1) ->
+    owns s (pages n1 ++ R) -> owns s (pages (achild n1 j) ++ (rest n1 j ++ R)).
+  Proof. intros s n1 j R Hl Hj O. pose proof (focus_get n1 j Hl Hj). eapply owns_perm; [exact O|perm]. Qed.
+
+  Lemma ascend_frame : forall s (n1 : anode) j c' R, ais_leaf n1 = false -> j < length (achildren n1) ->
+    owns s (pages c' ++ (rest n1 j ++ R)) -> owns s (pages (aset_child n1 j c') ++ R).
+  Proof. intros s n1 j c' R Hl Hj O. pose proof (focus_set n1 j c' Hl Hj). eapply owns_perm; [exact O|perm]. Qed.
+
+  Lemma descend_plug : forall s (n1 : anode) j R, ais_leaf n1 = false -> j < length (achildren n1) ->
+    owns s (mpages n1 ++ R) -> owns s (pages (achild n1 j) ++ (prest n1 j ++ R)).
+  Proof. intros s n1 j R Hl Hj O. pose proof (plug_get n1 j Hl Hj). eapply owns_perm; [exact O|perm]. Qed.
+
+  Lemma ascend_plug : forall s (n1 : anode) j c' R, ais_leaf n1 = false -> j < length (achildren n1) ->
+    (avals n1 = [] -> length (achildren n1) = 1) ->
+    owns s (pages c' ++ (prest n1 j ++ R)) -> owns s (pages (aplug n1 j c') ++ R).
+  Proof. intros s n1 j c' R Hl Hj H1 O. pose proof (plug_set n1 j c' Hl Hj H1). eapply owns_perm; [exact O|perm]. Qed.
+
+  (* the erased child of a page whose erasure is known *)
+  Lemma erase_child_of : forall (n1 : anode) vs1 cs1 j, erase n1 = Inode vs1 cs1 ->
+    erase (achild n1 j) = nth j cs1 dnode /\ ais_leaf n1 = false /\ length (achildren n1) = length cs1.
+  Proof.
+    intros n1 vs1 cs1 j E. rewrite <- (E5 achild_erase), achildren_length_erase, <- (E5 ais_leaf_erase), E.
+    repeat split.
+  Qed.
+
+  (* ---------------------------------------------------------------- zix_btree_insert: the descent *)
+  Lemma ainsert_down_frame : forall f s (n : anode) e R,
+    kids_ok L I f (erase n) -> n_vals (erase n) < max_vals L I (erase n) -> asc (elements (erase n)) ->
+    owns s (pages n ++ R) ->
+    let '(st, n', s', lg) := ainsert_down rank dflt L I f s n e in owns s' (pages n' ++ R).
+  Proof.
+    induction f as [|f IH]; intros s n e R Hk Hnf Ha O; [destruct n; destruct Hk|].
+    destruct n as [id vs|id vs cs]; cbn [ainsert_down].
+    - destruct (find_value dflt (cmpk rank e) vs) as [[i eq] lg]. destruct eq; exact O.
+    - cbn [erase] in Hk, Hnf, Ha.
+      pose proof Hk as (Hf0 & Hl & Hfa).
+      assert (Hav : asc vs) by (apply (B3 asc_vals vs (map erase cs)); assumption).
+      pose proof (B3 find_value_spec (cmpk rank e) vs (B3 cmpk_mono e vs Hav)) as Hfv.
+      destruct (find_value dflt (cmpk rank e) vs) as [[i eq] lg] eqn:Efv.
+      destruct Hfv as (Hi & _). rewrite map_length in Hl.
+      destruct eq; [exact O|].
+      pose proof (B7 kids_ok_child f vs (map erase cs) i Hk Hi) as Hc.
+      destruct (ais_full L I (nth i cs adnode)) eqn:Efull.
+      + pose proof (owns_alloc _ _ O) as HA. destruct (AllocModel.alloc Aligned s) as [[rid|] s1].
+        2:{ exact (proj1 HA). }
+        destruct HA as (O1 & _ & _).
+        rewrite <- (E5 ais_full_erase), <- (E5 nth_erase) in Efull.
+        assert (Hfull : n_vals (nth i (map erase cs) dnode) = max_vals L I (nth i (map erase cs) dnode))
+          by (unfold is_full in Efull; apply Nat.eqb_eq in Efull; exact Efull).
+        destruct (split_node dflt L I (nth i (map erase cs) dnode)) as [[l m] r] eqn:Esp.
+        pose proof (B7 split_child_spec f vs (map erase cs) i l m r Hk Hi Hfull Esp) as Hs. cbv zeta in Hs.
+        destruct Hs as (Hsc & Hel & Hk1 & Hni & Hni1 & Hlnf & Hrnf & Hm).
+        set (cs1 := firstn i (map erase cs) ++ l :: r :: skipn (S i) (map erase cs)) in *.
+        set (vs1 := ainsert vs i m) in *.
+        assert (Hlv1 : length vs1 = S (length vs)) by (unfold vs1; apply length_ainsert; lia).
+        set (n1 := asplit_child dflt L I rid (AInode id vs cs) i).
+        assert (En1 : erase n1 = Inode vs1 cs1) by (unfold n1; rewrite (E5 erase_split_child); exact Hsc).
+        assert (Hp1 : Permutation (pages n1) (rid :: pages (AInode id vs cs))).
+        { apply pages_split_child with (h := f); [lia|]. rewrite <- (E5 nth_erase). exact Hc. }
+        assert (Ha1 : asc (elements (Inode vs1 cs1))) by (rewrite Hel; exact Ha).
+        pose proof Hk1 as (_ & Hl1 & _).
+        assert (O1' : owns s1 (pages n1 ++ R)) by (eapply owns_perm; [exact O1|perm]).
+        assert (Rec : forall j, j <= length vs1 -> n_vals (nth j cs1 dnode) < max_vals L I (nth j cs1 dnode) ->
+                  let '(st, c', s2, lg2) := ainsert_down rank dflt L I f s1 (achild n1 j) e in
+                  owns s2 (pages (aset_child n1 j c') ++ R)).
+        { intros j Hj Hnfj. destruct (erase_child_of n1 vs1 cs1 j En1) as (Ec & Hlf & Hlen).
+          pose proof (B7 kids_ok_child f vs1 cs1 j Hk1 Hj) as Wj.
+          assert (Hjl : j < length (achildren n1)) by lia.
+          pose proof (IH s1 (achild n1 j) e (rest n1 j ++ R)) as H. rewrite Ec in H.
+          specialize (H (B7 wfn_kids_ok _ _ Wj) Hnfj (B3 asc_child vs1 cs1 j Hl1 Hj Ha1)
+                        (descend_frame s1 n1 j R Hlf Hjl O1')).
+          destruct (ainsert_down rank dflt L I f s1 (achild n1 j) e) as [[[st c'] s2] lg2].
+          apply ascend_frame; assumption. }
+        destruct (cmpk rank e (nth i (avals n1) dflt)).
+        * exact O1'.
+        * pose proof (Rec (i + 1) ltac:(lia) ltac:(rewrite Hni1; exact Hrnf)) as H.
+          destruct (ainsert_down rank dflt L I f s1 (achild n1 (i + 1)) e) as [[[st c'] s2] lg2]. exact H.
+        * pose proof (Rec i ltac:(lia) ltac:(rewrite Hni; exact Hlnf)) as H.
+          destruct (ainsert_down rank dflt L I f s1 (achild n1 i) e) as [[[st c'] s2] lg2]. exact H.
+      + rewrite <- (E5 ais_full_erase), <- (E5 nth_erase) in Efull.
+        pose proof (IH s (nth i cs adnode) e (rest (AInode id vs cs) i ++ R)) as H.
+        rewrite <- (E5 nth_erase) in H.
+        specialize (H (B7 wfn_kids_ok _ _ Hc) (B7 not_full_lt _ _ Hc Efull)
+                      (B3 asc_child vs (map erase cs) i ltac:(rewrite map_length; exact Hl) Hi Ha)
+                      (descend_frame s (AInode id vs cs) i R eq_refl ltac:(cbn [achildren]; lia) O)).
+        destruct (ainsert_down rank dflt L I f s (nth i cs adnode) e) as [[[st c'] s2] lg2].
+        apply (ascend_frame s2 (AInode id vs cs) i c' R eq_refl); [cbn [achildren]; lia|exact H].
+  Qed.
+
+  (* ---------------------------------------------------------------- zix_btree_grow_up / zix_btree_insert *)
+  Lemma agrow_up_frame : forall h s (r : anode) R,
+    wfn L I h (erase r) -> owns s (pages r ++ R) ->
+    let '(st, r', s') := agrow_up dflt L I s r in
+    owns s' (pages r' ++ R) /\ (st <> SUCCESS -> r' = r).
+  Proof.
+    intros h s r R W O. unfold agrow_up.
+    pose proof (owns_alloc _ _ O) as H1. destruct (AllocModel.alloc Aligned s) as [[nid|] s1].
+    2:{ split; [exact (proj1 H1)|reflexivity]. }
+    destruct H1 as (O1 & _ & _).
+    pose proof (owns_alloc _ _ O1) as H2. destruct (AllocModel.alloc Aligned s1) as [[rid|] s2].
+    - destruct H2 as (O2 & _ & _). split; [|intros H; contradiction].
+      pose proof (pages_split_child h rid nid [] [r] 0 ltac:(cbn [length]; lia) W) as Hp.
+      rewrite pages_inode, cpages_cons, cpages_nil in Hp.
+      eapply owns_perm; [exact O2|perm].
+    - split; [|reflexivity]. apply owns_release. exact (proj1 H2).
+  Qed.
+
+  Lemma ainsert_owns : forall t s e, AInv t s ->
+    let '(st, t', s', lg) := ainsert_op rank dflt L I s t e in owns s' (a_self t' :: pages (a_root t')).
+  Proof.
+    intros t s e [HInv O]. destruct HInv as ([h Hr] & Ha & Hsz). cbn [erase_tree root] in *.
+    pose proof Hr as (Hk & Hn & Hge).
+    assert (O' : owns s (pages (a_root t) ++ [a_self t])) by (eapply owns_perm; [exact O|perm]).
+    assert (Fin : forall h0 s0 (r0 : anode), kids_ok L I h0 (erase r0) -> n_vals (erase r0) < max_vals L I (erase r0) ->
+              elements (erase r0) = elements (erase (a_root t)) -> owns s0 (pages r0 ++ [a_self t]) ->
+              let '(st, t', s', lg) :=
+                (let '(st, r1, s1, lg) := ainsert_down rank dflt L I (aheight r0) s0 r0 e in
+                 (st, mkATree (a_self t) r1 (match st with SUCCESS => Z.succ (a_size t) | _ => a_size t end), s1, lg)) in
+              owns s' (a_self t' :: pages (a_root t'))).
+    { intros h0 s0 r0 Hk0 Hnf0 Hel0 O0.
+      rewrite <- (E5 aheight_erase), (B7 kids_ok_height h0 _ Hk0).
+      pose proof (ainsert_down_frame h0 s0 r0 e [a_self t] Hk0 Hnf0 ltac:(rewrite Hel0; exact Ha) O0) as H.
+      destruct (ainsert_down rank dflt L I h0 s0 r0 e) as [[[st r1] s1] lg]. cbn [a_self a_root].
+      eapply owns_perm; [exact H|perm]. }
+    unfold ainsert_op. destruct (ais_full L I (a_root t)) eqn:Efull.
+    - rewrite <- (E5 ais_full_erase) in Efull.
+      assert (Hfull : n_vals (erase (a_root t)) = max_vals L I (erase (a_root t)))
+        by (unfold is_full in Efull; apply Nat.eqb_eq in Efull; exact Efull).
+      assert (Hw : wfn L I h (erase (a_root t))).
+      { apply (B7 wfn_iff). split; [assumption|]. pose proof (B7 min_max_vals (erase (a_root t))). lia. }
+      pose proof (agrow_up_frame h s (a_root t) [a_self t] Hw O') as HG.
+      pose proof (E5 erase_grow_up s (a_root t)) as EG.
+      destruct (agrow_up dflt L I s (a_root t)) as [[st0 r0] s0]. destruct HG as [O0 Hsame].
+      destruct (B7 grow_up_spec h (oracle s) (erase (a_root t)) st0 (erase r0) (oracle s0) Hr Efull EG)
+        as (_ & _ & [[-> _]|(-> & Hk0 & Hn0 & Hl0 & _ & Hel0)]).
+      + rewrite (Hsame ltac:(discriminate)) in O0. eapply owns_perm; [exact O0|perm].
+      + apply (Fin (S h)); auto. rewrite Hn0. unfold max_vals. rewrite Hl0. lia.
+    - apply (Fin h); auto.
+      rewrite <- (E5 ais_full_erase) in Efull. unfold is_full in Efull. apply Nat.eqb_neq in Efull. lia.
+  Qed.
+
+  Lemma ainsert_inv : forall t s e, AInv t s ->
+    let '(st, t', s', lg) := ainsert_op rank dflt L I s t e in AInv t' s'.
+  Proof.
+    intros t s e H. pose proof (ainsert_owns t s e H) as HO.
+    pose proof (E5 erase_insert s t e) as HE.
+    pose proof (B7 insert_refines (oracle s) (erase_tree t) e (proj1 H)) as HR.
+    destruct (ainsert_op rank dflt L I s t e) as [[[st t'] s'] lg].
+    rewrite HE in HR. split; [exact (proj1 HR)|exact HO].
+  Qed.
+
 End AllocInv.
